@@ -74,6 +74,14 @@ def logint(logf, lo, hi):
     return mp.log(val) + M
 
 
+def xlog(c, x):
+    """c * log(x) with the convention 0 * log(0) = 0 (the factor x^0 is 1)"""
+    mp = _mp()
+    if c == 0:
+        return mp.mpf(0)
+    return c * mp.log(x)
+
+
 def _ratio(num, den):
     mp = _mp()
     return float(mp.exp(num - den))
@@ -93,7 +101,7 @@ def pair(a_i, b_i, a_j, b_j, y, mu):
 
     def I(k, l):
         p = A + k + l
-        return logint(lambda u: (a_j - 1 + l) * mp.log(u) + y * mp.log(1 - u) - p * mp.log(c(u)), 0.0, 1.0) + mp.loggamma(p)
+        return logint(lambda u: xlog(a_j - 1 + l, u) + xlog(y, 1 - u) - p * mp.log(c(u)), 0.0, 1.0) + mp.loggamma(p)
     z = I(0, 0)
     e_i, e_ii, e_j, e_jj, e_ij = (_ratio(I(*kl), z) for kl in ((1, 0), (2, 0), (0, 1), (0, 2), (1, 1)))
     out = {"mn_i": e_i, "va_i": e_ii - e_i ** 2, "mn_j": e_j, "va_j": e_jj - e_j ** 2}
@@ -110,10 +118,10 @@ def rootward(t_j, a, b, y, mu):
         return None
 
     def I(k):
-        return logint(lambda x: y * mp.log(x) - (mu + b) * x + (a - 1 + k) * mp.log(x + t_j), 0.0, math.inf)
+        return logint(lambda x: xlog(y, x) - (mu + b) * x + xlog(a - 1 + k, x + t_j), 0.0, math.inf)
     if t_j == 0.0:
         def I(k):  # noqa: F811  plain gamma integral, still by quadrature
-            return logint(lambda x: (y + a - 1 + k) * mp.log(x) - (mu + b) * x, 0.0, math.inf)
+            return logint(lambda x: xlog(y + a - 1 + k, x) - (mu + b) * x, 0.0, math.inf)
     z = I(0)
     e1, e2 = _ratio(I(1), z), _ratio(I(2), z)
     out = {"mn": e1, "va": e2 - e1 ** 2}
@@ -128,7 +136,7 @@ def leafward(t_i, a, b, y, mu):
     mp = _mp()
 
     def I(k):
-        return logint(lambda t: y * mp.log(t_i - t) + (mu - b) * t + (a - 1 + k) * mp.log(t), 0.0, t_i)
+        return logint(lambda t: xlog(y, t_i - t) + (mu - b) * t + xlog(a - 1 + k, t), 0.0, t_i)
     z = I(0)
     e1, e2 = _ratio(I(1), z), _ratio(I(2), z)
     out = {"mn": e1, "va": e2 - e1 ** 2}
@@ -149,7 +157,7 @@ def unphased(a_i, b_i, a_j, b_j, y, mu):
     d = lambda w: mu + b_i * w + b_j * (1 - w)
 
     def I(p, logg):
-        return logint(lambda w: logg(w) + (a_i - 1) * mp.log(w) + (a_j - 1) * mp.log(1 - w) - (A + p) * mp.log(d(w)), 0.0, 1.0) \
+        return logint(lambda w: logg(w) + xlog(a_i - 1, w) + xlog(a_j - 1, 1 - w) - (A + p) * mp.log(d(w)), 0.0, 1.0) \
             + mp.loggamma(A + p)
     z = I(0, lambda w: 0)
     e_i = _ratio(I(1, lambda w: mp.log(w)), z)
@@ -173,7 +181,7 @@ def sideways(t_i, a, b, y, mu):
         return None
 
     def I(logg):
-        return logint(lambda t: logg(t) + y * mp.log(t_i + t) - (mu + b) * t + (a - 1) * mp.log(t), 0.0, math.inf)
+        return logint(lambda t: logg(t) + xlog(y, t_i + t) - (mu + b) * t + xlog(a - 1, t), 0.0, math.inf)
     z = I(lambda t: 0)
     e1 = _ratio(I(lambda t: mp.log(t)), z)
     e2 = _ratio(I(lambda t: 2 * mp.log(t)), z)
@@ -192,7 +200,7 @@ def twin(a, b, y, mu):
         return None
 
     def I(k):
-        return logint(lambda t: y * mp.log(2 * t) - 2 * mu * t + (a - 1 + k) * mp.log(t) - b * t, 0.0, math.inf)
+        return logint(lambda t: xlog(y, 2 * t) - 2 * mu * t + xlog(a - 1 + k, t) - b * t, 0.0, math.inf)
     z = I(0)
     e1, e2 = _ratio(I(1), z), _ratio(I(2), z)
     return {"mn": e1, "va": e2 - e1 ** 2, "pr_m": 0.5, "mn_m": e1 / 2, "va_m": e2 / 3 - (e1 / 2) ** 2}
